@@ -116,7 +116,7 @@ def parse_unit(path):
                 u.loops[key] = dict(lines=[], line=ln)
                 block = ("loop", u.loops[key], "%s.loop%d" % key)
             elif w[0] == "hint":
-                m = re.match(r"hint\s+(\S+)\s+(before|after|replace)\s+`(.*)`(\s+nth=(\d+))?\s*$", d)
+                m = re.match(r"hint\s+(\S+)\s+(before|after_block|after|replace)\s+`(.*)`(\s+nth=(\d+))?\s*$", d)
                 if not m:
                     raise BuildError("%s:%d bad hint directive" % (path, ln))
                 h = dict(fn=m.group(1), where=m.group(2), anchor=m.group(3), lines=[], nth=int(m.group(5) or 0),
@@ -609,6 +609,18 @@ def transform_fn(u, fnkey, text, em, meta, is_trait_impl=False, nested=False, st
             # insert at start of the line containing the anchor
             ls = plain.rfind("\n", 0, p) + 1
             inserts.append(("insert", ls, h["lines"], "%s.hint" % fnkey))
+        elif h["where"] == "after_block":
+            # after the closing brace of the block statement that opens on the anchor's line (if/while/for/match {..})
+            le0 = plain.find("\n", p)
+            le0 = len(plain) if le0 < 0 else le0
+            opens = [k for k in range(len(toks)) if toks[k][1] == "{" and p <= toks[k][2] < le0]
+            if not opens:
+                raise BuildError("anchor lost: hint anchor %r in %s opens no block on its line" % (h["anchor"], fnkey))
+            cl = rsx.match_close(toks, opens[-1])
+            le = plain.find("\n", toks[cl][3])
+            if le < 0:
+                le = len(plain)
+            inserts.append(("insert", le + 1, h["lines"], "%s.hint" % fnkey))
         elif h["where"] == "after":
             le = plain.find("\n", p + len(h["anchor"]))
             if le < 0:
